@@ -194,16 +194,19 @@ func Minimise(vals []uint32, class string, budget int, maxWall time.Duration, ru
 	best := append([]uint32(nil), vals...)
 	t0 := time.Now()
 	tries := 0
+	spent := func() bool { return tries >= budget || time.Since(t0) > maxWall }
 	test := func(c []uint32) bool {
-		if tries >= budget || time.Since(t0) > maxWall {
+		if spent() {
 			return false
 		}
 		tries++
 		v := run(c)
 		return v != nil && v.Class == class
 	}
+	// (every loop below stops as soon as the budget is spent: building a candidate from a tape of several
+	// hundred thousand choices costs time by itself)
 	// 1. truncate the tail
-	for n := len(best) / 2; n >= 1; n /= 2 {
+	for n := len(best) / 2; n >= 1 && !spent(); n /= 2 {
 		for len(best) > n {
 			c := best[:len(best)-n]
 			if !test(c) {
@@ -213,8 +216,8 @@ func Minimise(vals []uint32, class string, budget int, maxWall time.Duration, ru
 		}
 	}
 	// 2. delete chunks
-	for n := len(best) / 2; n >= 1; n /= 2 {
-		for i := 0; i+n <= len(best); {
+	for n := len(best) / 2; n >= 1 && !spent(); n /= 2 {
+		for i := 0; i+n <= len(best) && !spent(); {
 			c := append(append([]uint32(nil), best[:i]...), best[i+n:]...)
 			if test(c) {
 				best = c
@@ -225,6 +228,9 @@ func Minimise(vals []uint32, class string, budget int, maxWall time.Duration, ru
 	}
 	// 3. zero, then halve entries
 	for i := range best {
+		if spent() {
+			break
+		}
 		if best[i] == 0 {
 			continue
 		}
